@@ -845,6 +845,13 @@ def _parser_pop(ctx: "Wtp", warn_unclosed: bool) -> None:
         node.largs.append(node.children)
         node.children = []
 
+    # A subtitle node that is closed before its end token was seen (by a
+    # table cell, an end tag, ... inside the title line) takes what it has
+    # collected so far as its title, so that it always has a title argument.
+    if node.kind in LEVEL_KIND_FLAGS and not node.largs:
+        node.largs.append(node.children)
+        node.children = []
+
     # When popping a TEMPLATE, check if its name is a constant that
     # is a known parser function (including predefined variable).
     # If so, turn this node into a PARSER_FN node.
